@@ -5,6 +5,8 @@ package vsync
 
 import (
 	"fmt"
+	"sort"
+	"strings"
 	"sync"
 
 	"github.com/sourcegraph/zoekt/internal/verifshim/mc"
@@ -12,7 +14,6 @@ import (
 
 type Locker = sync.Locker
 type Pool = sync.Pool
-type Map = sync.Map
 
 // Mutex ------------------------------------------------------------------
 type Mutex struct {
@@ -218,3 +219,51 @@ func (o *Once) Do(f func()) {
 		f()
 	}
 }
+
+// Map --------------------------------------------------------------------
+// Map is sync.Map with a scheduling point before every operation (each
+// operation itself stays atomic, as sync.Map guarantees).
+type Map struct {
+	real sync.Map
+	id   string
+}
+
+func (m *Map) pt(op string) {
+	e := mc.Cur()
+	if e == nil {
+		return
+	}
+	if m.id == "" {
+		m.id = e.NewObjID("map")
+		e.RegisterState(func() string {
+			var ks []string
+			m.real.Range(func(k, v any) bool { ks = append(ks, fmt.Sprintf("%v=%v", k, v)); return true })
+			sort.Strings(ks)
+			return m.id + ":" + strings.Join(ks, ",")
+		})
+	}
+	e.Point(op, m.id, nil)
+}
+
+func (m *Map) Load(key any) (any, bool) { m.pt("Map.Load"); return m.real.Load(key) }
+func (m *Map) Store(key, value any)     { m.pt("Map.Store"); m.real.Store(key, value) }
+func (m *Map) Delete(key any)           { m.pt("Map.Delete"); m.real.Delete(key) }
+func (m *Map) Clear()                   { m.pt("Map.Clear"); m.real.Clear() }
+func (m *Map) LoadOrStore(key, value any) (any, bool) {
+	m.pt("Map.LoadOrStore")
+	return m.real.LoadOrStore(key, value)
+}
+func (m *Map) LoadAndDelete(key any) (any, bool) {
+	m.pt("Map.LoadAndDelete")
+	return m.real.LoadAndDelete(key)
+}
+func (m *Map) Swap(key, value any) (any, bool) { m.pt("Map.Swap"); return m.real.Swap(key, value) }
+func (m *Map) CompareAndSwap(key, old, new any) bool {
+	m.pt("Map.CompareAndSwap")
+	return m.real.CompareAndSwap(key, old, new)
+}
+func (m *Map) CompareAndDelete(key, old any) bool {
+	m.pt("Map.CompareAndDelete")
+	return m.real.CompareAndDelete(key, old)
+}
+func (m *Map) Range(f func(key, value any) bool) { m.pt("Map.Range"); m.real.Range(f) }
